@@ -154,13 +154,19 @@ fn stress<W: Write>(n: usize, m: usize, locked: bool, out: &mut W) {
     let acc = merged.accum(0i64, |a: &i64, s: &i64| a + s);
     let big = Arc::new(Mutex::new(()));
     let panics = Arc::new(Mutex::new(0u32));
+    let worker_leaks_total = Arc::new(std::sync::atomic::AtomicU32::new(0));
     let mut hs = Vec::new();
     // every handle a worker needs is cloned BEFORE any worker starts: in the locked variant no operation on
     // the context (a clone counts) may run concurrently with a transaction
     let prepared: Vec<_> = sinks.iter().map(|s| (s.clone(), acc.clone(), ctx.clone())).collect();
+    // the main thread settles the collector (a collection with nothing left to do) before it hands the context over
+    ctx.transaction(|| {});
+    ctx.impl_.collect_cycles();
+    ctx.impl_.collect_cycles();
     for (i, (s, acc, ctx)) in prepared.into_iter().enumerate() {
         let big = big.clone();
         let panics = panics.clone();
+        let worker_leaks = worker_leaks_total.clone();
         hs.push(std::thread::spawn(move || {
             for k in 0..m {
                 let r = catch_unwind(AssertUnwindSafe(|| {
@@ -173,9 +179,23 @@ fn stress<W: Write>(n: usize, m: usize, locked: bool, out: &mut W) {
                     });
                     // a private accumulator (reference cycle) built, used and dropped on this thread
                     if k % 16 == 0 {
+                        // under the lock nobody else touches the context: a collection on THIS thread must bring the node
+                        // count back to what it was before the accumulator was built
+                        let before = if locked {
+                            ctx.impl_.collect_cycles();
+                            Some(ctx.impl_.node_count())
+                        } else {
+                            None
+                        };
                         let own = s.stream().accum(0i64, |a: &i64, st: &i64| a + st);
                         let _ = own.sample();
                         drop(own);
+                        if let Some(b) = before {
+                            ctx.impl_.collect_cycles();
+                            if ctx.impl_.node_count() != b {
+                                worker_leaks.fetch_add(1, std::sync::atomic::Ordering::SeqCst);
+                            }
+                        }
                     }
                     let _ = acc.sample();
                 }));
@@ -212,7 +232,7 @@ fn stress<W: Write>(n: usize, m: usize, locked: bool, out: &mut W) {
         ctx.impl_.node_count()
     }));
     let (nodes, p2) = match leftover {
-        Ok(k) => (k as i64, 0),
+        Ok(k) => (k as i64 + worker_leaks_total.load(std::sync::atomic::Ordering::SeqCst) as i64, 0),
         Err(_) => (-1, 1),
     };
     writeln!(
